@@ -88,6 +88,13 @@ claim("C03",
       "Values of correlations and finiteness over temperature ranges are not decided.",
       COMMON_NOTE, "unit/degree typing (abstract interpretation) + exact rational normal forms + dominance/ordering", "DESIGN.md section 3 C03")
 
+claim("C02",
+      "Static analysis (partial, exact): 24 accounting/conversion functions typed in the free abelian group of units (cm, g, mol, barn, atom) with a role generator for volume "
+      "fractions - returns and the arguments handed to the number-density setters must have the unit the law states, for all runtime values; symmetry-factor placement compared "
+      "between the sibling sites; setters delegating to one implementation; setMassFracs counting every assigned fraction exactly once per iteration; cache invalidation on geometry "
+      "change. Numerical read-back equalities are not decided.",
+      COMMON_NOTE, "dimension/role typing (abstract interpretation) + sibling agreement + all-paths counting", "DESIGN.md section 3 C02")
+
 NA_REASON = {}
 
 
